@@ -344,3 +344,9 @@ def r8(ctx, R):
                 uncovered.append((size, r, miss))
     summary = '; '.join(f'size={s} restart_from={r}: slot(s) {m} keep the old counter' for s, r, m in uncovered[:4]) + (f' (+{len(uncovered) - 4} more cases)' if len(uncovered) > 4 else '')
     R.check(not uncovered, 'BasicRestartingNonMPI.prepare_next_block :: every slot of the next block is assigned a restart counter' + (f' [{summary}]' if uncovered else ''), w, 'for every block size and restart point the assigned positions cover 0..size-1', f'{len(uncovered)} uncovered case(s) of {sum(range(1, 7))}: ' + summary)
+
+
+@rule('C19', 'C19.R9', 'hook state that outlives a step: the LogWork baseline is re-taken at every pre_step, so work done between two runs on the same controller is not charged to the next run (shared with C14.R8)', floor=3)
+def r9(ctx, R):
+    from . import c14
+    c14.r8(ctx, R)
